@@ -395,4 +395,13 @@ def run(ctx, prog):
         ctx.inst('C16.R5', mp.short.replace('ann_backend::', ''), 'every rewrite of the list was offered the incoming node', bool(S) and bool(offers) and not blind,
                  ('set_layer_neighbors at %s is reachable without %s having been pushed into the list or its candidates' % (mp.loc_of(blind[0]), incoming)) if blind else
                  '%d rewrites, %d pushes of %s, %d "already in the list" edges' % (len(S), len(offers), incoming, len(present)))
+    # ------------------------------------------------------------------ R6 the distance kernels see every coordinate once
+    ctx.rule('C16.R6', 'the graph is built and searched under the metric the user asked for only if every distance kernel accumulates every coordinate exactly once: the '
+                       'element ranges read by the loops of each SIMD kernel partition 0..len (symbolic chaining of the loop spans, kvstatic/cover.py — same analysis as '
+                       'C06.R7). A kernel that skips or double-counts coordinates for some dimensions distorts the metric there, and recall against the true metric '
+                       'collapses (0.15–0.39 at dimension 32 in the seeded change) while every in-tree recall guard, which uses the same kernel, stays green')
+    from kvstatic import cover as _cover
+    from rules.C17 import LANES as _LANES
+    n6 = _cover.kernel_partitions(ctx, prog, 'C16.R6', _LANES)
+    ctx.floor('C16.R6', 'kernel × slice-parameter partitions', n6, 21, '12 kernels: 9 with two slices, 3 with one')
     ctx.stat('functions_analysed', len(R))
